@@ -320,14 +320,14 @@ def run(ck):
         unary_cases(A)
         membership1(A)
     core = {i for i, sh in enumerate(shapes) if sh[0] in (1, INF) and sh[1] in (0, -INF) and (i % len(bound_pairs)) in (0, 1, 2, 6)}
-    pick = rng.randint(0, 3)
+    pick = rng.randint(0, 7)
     for n, ((i, A), (j, B)) in enumerate(itertools.product(enumerate(fmts), enumerate(fmts))):
-        if thorough or (i in core and j in core) or n % 4 == pick:
+        if thorough or (i in core and j in core) or n % 8 == pick:
             binary_cases(A, B, 'grid')
             if thorough or n % 2 == 0:
                 membership(A, B, 5)
     # 2. all 256 flag pairs on a few shape pairs
-    for (s1, s2) in [(shapes[1], shapes[2]), (shapes[0], shapes[-1]), (shapes[len(shapes) // 2], shapes[3])][:3 if thorough else 2]:
+    for (s1, s2) in [(shapes[1], shapes[2]), (shapes[0], shapes[-1]), (shapes[len(shapes) // 2], shapes[3])][:3 if thorough else 1]:
         for f1 in all_flags:
             for f2 in all_flags:
                 A, B = mk(s1, f1), mk(s2, f2)
@@ -336,7 +336,7 @@ def run(ck):
             unary_cases(mk(s1, f1))
             membership1(mk(s1, f1))
     # 3. seeded random pairs of a wider space
-    for _ in range(12000 if thorough else 500):
+    for _ in range(12000 if thorough else 300):
         A, B = rand_fmt(), rand_fmt()
         binary_cases(A, B, 'random')
         unary_cases(A)
@@ -376,7 +376,7 @@ def run(ck):
 
     # 5. harness-side membership vs the proved-sound executable `mem`; exact ops vs the IEEE model
     pool = fmts + real_fmts + [rand_fmt() for _ in range(60)]
-    for _ in range(6000 if thorough else 1500):
+    for _ in range(6000 if thorough else 1000):
         A = rng.choice(pool)
         v = rng.choice(vals)
         add(f'(AMem {af_term(A)} {fl_of(v)}, (RB {cb(why_not_member(A, v) is None)}))', 'AMem', ('mem', af_term(A), fl_of(v)))
